@@ -107,13 +107,28 @@ def build(rng, n_sing):
     for t in terms[1:]:
         expr = f"({expr}) {rng.choice(['+', '+', '*', '-'])} ({t})"
     as_inter = rng.random() < 0.5
-    lines = ["states(" + ", ".join(f"{s}={vals[s]}" for s in states) + ")", ""]
-    if as_inter:
-        lines += [f"w = {expr}", "dx_dt = w - x"]
+    layout = rng.choice(["flat", "flat", "components", "stateless_component"])
+    if layout == "flat":
+        lines = ["states(" + ", ".join(f"{s}={vals[s]}" for s in states) + ")", ""]
+        if as_inter:
+            lines += [f"w = {expr}", "dx_dt = w - x"]
+        else:
+            lines += [f"dx_dt = {expr}"]
+        if two:
+            lines.append("dy_dt = -y")
     else:
-        lines += [f"dx_dt = {expr}"]
-    if two:
-        lines.append("dy_dt = -y")
+        # the singular expression may live in a component that owns other states, or no state at all
+        lines = ['states("Membrane", x=' + str(vals["x"]) + ")"]
+        if two:
+            lines.append('states("Gate", y=' + str(vals["y"]) + ")")
+        lines.append("")
+        if as_inter:
+            home = "Rates" if layout == "stateless_component" else ("Gate" if two else "Membrane")
+            lines += [f'expressions("{home}")', f"w = {expr}", "", 'expressions("Membrane")', "dx_dt = w - x"]
+        else:
+            lines += ['expressions("Rates")', "unused_rate = 0.5", "", 'expressions("Membrane")', f"dx_dt = {expr}"]
+        if two:
+            lines += ["", 'expressions("Gate")', "dy_dt = -y"]
     return "\n".join(lines) + "\n", states, sing, nonrem, ("w" if as_inter else "dx_dt"), expr
 
 
